@@ -309,7 +309,7 @@ def score_obligations():
 CVSCORE_FUNCS = [(_BASE_UTILS, f) if isinstance(f, str) else f for f in SCORE_FUNCS] + [
     (os.path.join("verde", "utils.py"), "dispatch"), "select", "fit_score", "cross_val_score"]
 CVSCORE_THEOREMS = SCORE_THEOREMS + ["src_select_eq", "src_select_nones", "src_fit_score_eq", "src_dispatch_eq",
-                                     "src_cross_val_score_eq"]
+                                     "src_cross_val_score_eq", "cross_val_score_model"]
 CVSCORE_TEMPLATES = ["pylite_score.v.tmpl", "pylite_cvscore.v.tmpl"]
 CVSCORE_IMPORTS = SCORE_IMPORTS
 
